@@ -103,4 +103,25 @@ PROPS = {
             'the algebraic laws of transpose / stacking / multiplication',
         ],
     },
+    'C18': {
+        'level': 'proof',
+        'level_text': 'partial: the pointer surgery of the annealer moves is proved for trees of any size — swap_subtrees and move_subtree (Verus, on the extracted real text) keep the node array a symmetric, loop-free, duplicate-free adjacency structure with every node keeping its kind and every leaf its vertex label, with the new adjacency relation stated for every pair; their three leaf helpers replace_neighbor / other_neighbor / parent are proved by Kani over all symbolic nodes (complete). The cached-rank and annealer clauses are not covered',
+        'level_note': 'the Verus contracts of replace_neighbor/other_neighbor are assumed there and proved by the Kani harnesses of the same name; the tree-shape facts a call site must supply (no triangle / no chord, path of >= 4 distinct nodes) are preconditions; connectivity/acyclicity, the rank cache, random_decomp and the annealer are not under contract',
+        'technique': 'Verus contracts on swap_subtrees/move_subtree over Kani-proved leaf contracts (replace_neighbor, other_neighbor)',
+        'verus': ['decomp'],
+        'kani': [{'unit': 'decomp', 'file': 'quizx/src/rankwidth/decomp_tree.rs',
+                  'harnesses': ['replace_neighbor_contract', 'other_neighbor_contract', 'parent_and_kind_contract']}],
+        'assumptions': [
+            'cross-tool link: the Verus stubs of DecompNode::replace_neighbor / other_neighbor carry the abstract reading of what the Kani harnesses replace_neighbor_contract / other_neighbor_contract prove on the real code',
+            'the rank cache (FxHashMap) is replaced by an opaque placeholder type: swap_subtrees / move_subtree do not touch it',
+            'preconditions swap_ok / move_ok: facts that hold at the call sites because the structure is a tree (no triangle, no chord, distinct path nodes); they are stated, not proved for the callers',
+        ],
+        'supported_range': ['swap_subtrees with two different parents (the shared-parent case p1 == p2 of swap_random_leaves is not covered)', 'move_subtree on a path of at least 4 nodes (as move_random_subtree guarantees)'],
+        'not_covered': [
+            'cached rank = recomputed rank (bitgauss rank, DFS partition with FnMut closures, FxHashMap cache)',
+            'connectivity / acyclicity of the tree (global), leaves = graph vertices for random_decomp',
+            'annealer result (floating point, RNG)',
+            'swap_subtrees with a shared parent',
+        ],
+    },
 }
